@@ -39,7 +39,7 @@ func loadWorld(pkgDirs []string) (*World, error) {
 		return nil, err
 	}
 	w := &World{Units: map[string]*Unit{}, LibFuncs: map[string]*FuncSpec{}, SpecFns: map[string]*SpecFunc{}, Lemmas: map[string]*Lemma{},
-		Trusted: map[string]bool{}, Abstr: map[string]bool{}, Unsup: map[string]bool{}}
+		Trusted: map[string]bool{}, Abstr: map[string]bool{}, Unsup: map[string]bool{}, LockOrder: map[[2]string]bool{}}
 	for _, p := range pkgs {
 		if len(p.Errors) > 0 {
 			return nil, fmt.Errorf("package %s: %v", p.PkgPath, p.Errors[0])
@@ -85,6 +85,9 @@ func loadWorld(pkgDirs []string) (*World, error) {
 				}
 				for _, l := range cf.Lemmas {
 					w.Lemmas[l.Name] = l
+				}
+				for _, lo := range cf.LockOrder {
+					w.LockOrder[lo] = true
 				}
 			}
 		}
